@@ -38,3 +38,9 @@ package acl
 //@   inline
 //@   loop 0
 //@     invariant [no-match-yet] forall k int :: 0 <= k && k < iter ==> !globMatch(str(secs[k]), secret)
+
+// Patterns and actions are plain strings in JSON: no custom (un)marshalling may rewrite them on the way in.
+//@ pin [C01,C07 secret-json-is-verbatim-1] method Secret.UnmarshalText absent
+//@ pin [C01,C07 secret-json-is-verbatim-2] method Secret.UnmarshalJSON absent
+//@ pin [C01,C07 action-json-is-verbatim-1] method Action.UnmarshalText absent
+//@ pin [C01,C07 action-json-is-verbatim-2] method Action.UnmarshalJSON absent
